@@ -45,9 +45,17 @@ def gen_history(rng: random.Random) -> dict:
     sids = rng.sample(feeds.STATEMENTS, rng.randint(1, 4))
     ops = []
     for _ in range(rng.randint(3, 12)):
-        kind = rng.choices(['read', 'mutate', 'restart', 'crash-read'], [8, 3, 1.5, 0.7])[0]
+        kind = rng.choices(['read', 'mutate', 'restart', 'crash-read', 'read2'], [8, 3, 1.5, 0.7, 1.2])[0]
+        sqls = [s for s in used if STORAGES[s].startswith('sql')]
+        if kind == 'read2' and (not sqls or len(sids) < 2):
+            kind = 'read'
         storage = rng.choice(used)
-        if kind == 'read':
+        if kind == 'read2':
+            sa, sb = rng.sample(sids, 2)
+            ops.append({'op': 'read2', 'a': {'storage': rng.choice(sqls), 'sid': sa},
+                        'b': {'storage': rng.choice(sqls), 'sid': sb},
+                        'schedule': [rng.choice([0, 0, 1]) for _ in range(12)]})
+        elif kind == 'read':
             ops.append({'op': 'read', 'storage': storage, 'sid': rng.choice(sids)})
         elif kind == 'crash-read':
             ops.append({'op': 'read', 'storage': storage, 'sid': rng.choice(sids), 'crash': round(rng.random(), 4)})
@@ -195,7 +203,7 @@ class Run:
                 self.child = None
             self.stats['restarts'] += 1
             return
-        storage = op['storage']
+        storage = op.get('storage')
         if kind == 'mutate':
             trows = self.contents[storage]['T']
             if op['how'] in ('drop', 'restore'):
@@ -215,6 +223,23 @@ class Run:
             self.version[storage] += 1
             self.flush(storage)
             self.stats['mutations'] += 1
+            return
+        if kind == 'read2':
+            pair = [op['a'], op['b']]
+            if any(p['storage'] not in self.contents for p in pair):
+                return
+            child = self.incarnation()
+            res = child.call('read2', {'reads': [self.args(p['storage'], p['sid']) for p in pair],
+                                       'schedule': op['schedule']})
+            if not res.ok:
+                raise base.HarnessError(f'op{idx} read2: {res.value}')
+            self.stats['fault:interleaved-readers'] += 1
+            self.stats['reader-switches'] += res.value['switches']
+            for p, (status, value) in zip(pair, res.value['results']):
+                self.stats['reads'] += 1
+                where = (f'op{idx} read {p["sid"]} via {p["storage"]} concurrently with another reader of the same '
+                         f'process (incarnation {self.nchild}, {res.value["switches"]} switches)')
+                self.judge(where, p['storage'], p['sid'], status == 'ok', value, self.truth(p['storage'], p['sid']))
             return
         sid = op['sid']
         args = self.args(storage, sid)
@@ -267,18 +292,21 @@ class Run:
                 self.disk[key] = (rows, origin, ver)
             self.mem, self.lazy = {}, {}
             return
-        rows, origin, ver, layer = self.modelled(storage, sid, commit=res.ok)
-        self.events.append([sid, storage, layer, res.ok])
-        if not res.ok:
+        self.judge(where, storage, sid, res.ok, res.value, truth)
+
+    def judge(self, where: str, storage: str, sid: str, ok: bool, value, truth) -> None:
+        rows, origin, ver, layer = self.modelled(storage, sid, commit=ok)
+        self.events.append([sid, storage, layer, ok])
+        if not ok:
             if rows == 'ERROR':
                 self.stats['expected-errors'] += 1  # the storage can not answer: the read fails, nothing is cached
                 return
             if rows == TORN:
-                self.note_known('torn-cache-file-poisons-statement', f'{where}: fails with {res.value[:120]} - the cache '
+                self.note_known('torn-cache-file-poisons-statement', f'{where}: fails with {value[:120]} - the cache '
                                                                      f'file was torn by an earlier process death')
                 return
-            raise base.Violation('read-failed', f'{where}: {res.value[:300]} (reference: {truth})')
-        got = res.value
+            raise base.Violation('read-failed', f'{where}: {value[:300]} (reference: {truth})')
+        got = value
         if rows == 'ERROR':
             raise base.Violation('read-succeeded-on-unavailable-storage', f'{where}: returned {got} although the storage '
                                                                           f'is unavailable and nothing was cached')
